@@ -164,19 +164,45 @@ package log
 //@ ghost var gopen map[uint64]bool
 //@ ghost var gopenIdx map[uint64]uint64
 
-// T-fs (trusted): the prevIndex values of the segment files in the directory, ascending, each once
+// the prevIndex values of the segment files in the directory, ascending, each once. T-fs: the *.log names in a
+// log directory are the ones segmentFile produced (T-std.glob-log); what Glob, Base, TrimSuffix and ParseUint do
+// is in the contracts of verif_contracts_fsm.go. gsegm / gsegsort: ghost witnesses (the array Glob returned and
+// the sort generation), so that SegPos(d, i) names the position of file i in the result.
+//@ ghost func lidx(string) uint64
+//@ ghost var gsegm uint64
+//@ ghost var gsegsort int
+//@ pure SegPos(d string, i uint64) int = ginv(gsegsort, gpos(gsegm, lfile(d, i)))
+//@ axiom [T-std.glob-log] forall(d, p, gmatch(pjoin(d, "*.log"), p) == (p == lfile(d, lidx(p)))) && forall(d, gpatok(pjoin(d, "*.log")))
+//@ axiom [T-std.log-name-parses] forall(d, i, gparse(gtrim(gbase(lfile(d, i)), ".log")) == i && lidx(lfile(d, i)) == i)
+// sort.Slice (T-std) sorts by the less function it is given; that function is segments$1 below, proved to be "<"
+//@ view sort.Slice at log.segments
+//@   modifies contents(as(x, []uint64)), sortgen
+//@   ensures sortgen == old(sortgen) + 1
+//@   ensures forall(p, q, USIn(as(x, []uint64), p) && USIn(as(x, []uint64), q) && p <= q ==> raw(as(x, []uint64), p) <= raw(as(x, []uint64), q))
+//@   ensures forall(p, USIn(as(x, []uint64), p) ==> USIn(as(x, []uint64), ginv(old(sortgen), p)) && gperm(old(sortgen), ginv(old(sortgen), p)) == p && raw(as(x, []uint64), ginv(old(sortgen), p)) == old(raw(as(x, []uint64), p)))
+//@   ensures forall(p, USIn(as(x, []uint64), p) ==> USIn(as(x, []uint64), gperm(old(sortgen), p)) && ginv(old(sortgen), gperm(old(sortgen), p)) == p && raw(as(x, []uint64), p) == old(raw(as(x, []uint64), gperm(sortgen, p))))
+//@ pure USIn(s []uint64, p int) bool = base(s) <= p && p < base(s) + len(s)
+//@ func segments$1
+//@   props C10 C13 C14
+//@   requires 0 <= i && i < len(*offs) && 0 <= j && j < len(*offs)
+//@   ensures [C14+C13.ascending-order] result0 == ((*offs)[i] < (*offs)[j])
 //@ func segments
-//@   trusted
+//@   props C10 C13 C14
+//@   modifies sortgen, gsegm, gsegsort
 //@   ensures result1 == nil ==> base(result0) == 0 && len(result0) < 4611686018427387904
-//@   ensures result1 == nil ==> forall(k, 0 <= k && k < len(result0) ==> fs[lfile(dir, raw(result0, k))])
-//@   ensures result1 == nil ==> forall(j, k, 0 <= j && j < k && k < len(result0) ==> raw(result0, j) < raw(result0, k))
-//@   ensures result1 == nil ==> forall(i, fs[lfile(dir, i)] ==> 0 <= gpos(arrof(result0), lfile(dir, i)) && gpos(arrof(result0), lfile(dir, i)) < len(result0) && raw(result0, gpos(arrof(result0), lfile(dir, i))) == i)
+//@   ensures [C14+C13.segments-exist] result1 == nil ==> forall(k, 0 <= k && k < len(result0) ==> fs[lfile(dir, raw(result0, k))])
+//@   ensures [C14+C13.segments-ascending] result1 == nil ==> forall(j, k, 0 <= j && j < k && k < len(result0) ==> raw(result0, j) < raw(result0, k))
+//@   ensures [C14+C13.segments-complete] result1 == nil ==> forall(i, fs[lfile(dir, i)] ==> 0 <= SegPos(dir, i) && SegPos(dir, i) < len(result0) && raw(result0, SegPos(dir, i)) == i)
+//@   ghostcode after call Glob 1: gsegm := arrof(result0)
+//@   ghostcode after call Slice 1: gsegsort := sortgen - 1
+//@   loop 1 invariant -1 <= rangeindex && rangeindex < len(matches) && len(offs) == rangeindex + 1 && base(offs) == 0 && base(matches) == 0 && (len(offs) > 0 ==> isfresh(arrof(offs))) && (len(offs) == 0 ==> arrof(offs) == 0)
+//@   loop 1 invariant forall(k, 0 <= k && k < len(offs) ==> raw(matches, k) == lfile(dir, raw(offs, k)))
 
 //@ pure OpenedIdx(dir string, S map[uint64]bool, I map[uint64]uint64, j uint64) bool = I[j] != 0 && S[I[j]] && SName(I[j]) == lfile(dir, j) && SP(I[j]) == j
 //@ func openSegments
 //@   props C10 C13 C06
 //@   requires opt.SegmentSize >= 1024
-//@   modifies fs, gopen, gopenIdx, segment.next, segment.prev, segment.gord
+//@   modifies fs, gopen, gopenIdx, sortgen, gsegm, gsegsort, segment.next, segment.prev, segment.gord
 //@   ensures [C14.open-shape] result0 != nil ==> ListShape(result0, result1, gopen) && forall(x, gopen[x] ==> isfresh(x))
 //@   ensures result2 == nil ==> result0 != nil
 //@   ensures [C14+C13.open-no-stale] result2 == nil ==> forall(j, fs[lfile(dir, j)] ==> OpenedIdx(dir, gopen, gopenIdx, j))
@@ -188,7 +214,7 @@ package log
 //@   loop 1 invariant -1 <= rangeindex && rangeindex < len(offs) && base(offs) == 1
 //@   loop 1 invariant ListShape(first, last, gopen) && forall(x, gopen[x] ==> isfresh(x) && SSy(x) == SN(x))
 //@   loop 1 invariant forall(j, fs[lfile(dir, j)] ==> old(fs[lfile(dir, j)]) || j == raw(offs, 0))
-//@   loop 1 invariant forall(j, fs[lfile(dir, j)] ==> OpenedIdx(dir, gopen, gopenIdx, j) || (old(fs[lfile(dir, j)]) && gpos(arrof(offs), lfile(dir, j)) > 1 + rangeindex))
+//@   loop 1 invariant forall(j, fs[lfile(dir, j)] ==> OpenedIdx(dir, gopen, gopenIdx, j) || (old(fs[lfile(dir, j)]) && SegPos(dir, j) > 1 + rangeindex))
 
 //@ pure SNext(x *segment) uint64 = ref(x.next)
 //@ func (Options).validate
@@ -198,7 +224,7 @@ package log
 // Open: what Append / Reset / RemoveLTE require of a log object holds for a freshly opened one (C14, C10)
 //@ func Open
 //@   props C10 C13 C06 C14
-//@   modifies fs, gopen, gopenIdx, segment.next, segment.prev, segment.gord, segment.synced, elems(uint8), mmap.File.gdur
+//@   modifies fs, gopen, gopenIdx, sortgen, gsegm, gsegsort, segment.next, segment.prev, segment.gord, segment.synced, elems(uint8), mmap.File.gdur
 //@   ensures result1 != nil ==> result0 == nil
 //@   ensures [C14+C10.open-shape] result1 == nil ==> result0 != nil && isfresh(result0) && LogShape(result0) && result0.index == nil && result0.dir == dir
 //@   ensures [C14+C13.open-no-stale] result1 == nil ==> NoStale(result0)
